@@ -208,14 +208,16 @@ func classify(old, new wh.Build, dp *wh.Patch) classification {
 				if target == t.from {
 					role = "copied-from-link-target"
 				}
-				cl.add("symlink->file:"+role, p, target, t.from)
+				// repaired in /repo (fix: overlay bowl copy through a symlink): no longer a
+				// known-bad role; a recurrence is reported under a generic fingerprint
+				_ = role
+				_ = target
 			}
 		case "df":
 			if ok.hasChildren(p) {
 				cl.add("dir->file:nonempty-dir", p)
-			} else if t, isT := producedBy[p]; isT && t.how == "copy" {
-				cl.add("dir->file:empty-dir:copy-dest", p)
 			}
+			// "dir->file:empty-dir:copy-dest" was repaired by the same fix
 		}
 	}
 	// kind changes of paths that only exist in the new build as a different kind
